@@ -275,6 +275,12 @@ def eval_int(n, leaf):
     if v is not None:
         return v
     k = n.get("k")
+    lfn = getattr(leaf, "fn", None)
+    if lfn is not None and k == "ref" and n.get("dk") == "local":
+        from .facts import single_assignment_init
+        init = single_assignment_init(lfn, n.get("decl"))
+        if init is not None:
+            return eval_int(init, leaf)
     if k in ("int", "char"):
         return n["v"]
     if k == "bool":
@@ -471,8 +477,9 @@ def call_chain(n):
     return names, n
 
 
-def linear(n, sym):
-    """linear form {symbol: coeff, '': const} of an integer expression, or None. sym(node) names a symbol or returns None."""
+def linear(n, sym, fn=None):
+    """linear form {symbol: coeff, '': const} of an integer expression, or None. sym(node) names a symbol or returns None.
+    With fn, a local that is initialised once and never written again stands for its initialiser."""
     n = skip_copies(n)
     if not isinstance(n, dict):
         return None
@@ -480,19 +487,24 @@ def linear(n, sym):
     if s is not None:
         return {s: 1}
     k = n.get("k")
+    if fn is not None and k == "ref" and n.get("dk") == "local":
+        from .facts import single_assignment_init
+        init = single_assignment_init(fn, n.get("decl"))
+        if init is not None:
+            return linear(init, sym, fn)
     if k in ("int", "char"):
         return {"": n["v"]}
     if "cv" in n and k not in ("binop", "unop"):
         return {"": n["cv"]}
     if k == "cast":
-        return linear(n.get("e"), sym)
+        return linear(n.get("e"), sym, fn)
     if k == "unop" and n.get("op") in ("-", "+"):
-        a = linear(n.get("e"), sym)
+        a = linear(n.get("e"), sym, fn)
         if a is None:
             return None
         return {x: (-c if n["op"] == "-" else c) for x, c in a.items()}
     if k == "binop" and n.get("op") in ("+", "-"):
-        a, b = linear(n.get("lhs"), sym), linear(n.get("rhs"), sym)
+        a, b = linear(n.get("lhs"), sym, fn), linear(n.get("rhs"), sym, fn)
         if a is None or b is None:
             return None
         out = dict(a)
@@ -500,7 +512,7 @@ def linear(n, sym):
             out[x] = out.get(x, 0) + (c if n["op"] == "+" else -c)
         return {x: c for x, c in out.items() if c != 0 or x == ""}
     if k == "binop" and n.get("op") == "*":
-        a, b = linear(n.get("lhs"), sym), linear(n.get("rhs"), sym)
+        a, b = linear(n.get("lhs"), sym, fn), linear(n.get("rhs"), sym, fn)
         if a is None or b is None:
             return None
         if set(a) <= {""}:
@@ -513,12 +525,12 @@ def linear(n, sym):
     return None
 
 
-def comparison_form(n, sym):
+def comparison_form(n, sym, fn=None):
     """(linear form f, op) meaning `f op 0` for a comparison node, op in > >= == != (normalised), or None"""
     n = skip_copies(n)
     if not (isinstance(n, dict) and n.get("k") == "binop" and n.get("op") in ("<", ">", "<=", ">=", "==", "!=")):
         return None
-    a, b = linear(n.get("lhs"), sym), linear(n.get("rhs"), sym)
+    a, b = linear(n.get("lhs"), sym, fn), linear(n.get("rhs"), sym, fn)
     if a is None or b is None:
         return None
     f = dict(a)
